@@ -1,4 +1,5 @@
 """C20 — auxiliary structures return exact nearest neighbours and enclosing spheres (structural clauses of the grid search)."""
+import re
 from .. import interp as I, nf, dtab
 from ..nf import RF, as_rf
 from ..tables import c3
@@ -21,6 +22,9 @@ META = {
         'R6': 'Epos6: the initial sphere is grown over ALL inputs — points by Sphere::extend (C19.R9), spheres by R += d, c -= d*(c - s.c)/dist with d = (dist - R + s.r)/2 when d > 0, which is '
               'the smallest sphere containing the old sphere and the given one (R\' == R + d == dist - d + s.r)',
         'R3': 'ring enumeration: ring r consists of all offsets in [-r, r]^3 with Chebyshev norm exactly r that map to a valid cell',
+        'R7': 'bucket layout (add_parts): the particles are sorted by cell index before the run-length pass and stored in that order; the pass starts from (offset, count) = (0, 0) and the '
+              'cell of the FIRST sorted particle, and per particle either continues the run (count + 1) or closes it (cells[prev] = (offset, count); offset += count; count = 1; prev = cell of '
+              'this particle); the last run is closed after the loop — so cell c owns exactly parts[offset_c .. offset_c + count_c], the particles binned into it',
     },
     'explanation': 'Decides the geometric bookkeeping of the uniform grid and the admissibility of the two pruning bounds of the k-nearest-neighbour search as identities of normal forms. '
                    'For the bounding-sphere solvers: the dispatch to the k-point constructors (R4), the shape of the Welzl recursion (R5) and that the approximate solver grows its '
@@ -37,7 +41,7 @@ def run(ctx):
     for cfg in ctx.configs_used:
         F = ctx.facts(cfg)
         sfx = '' if cfg == 'default' else '@' + cfg
-        for fn in (r1, r2, r3, r4, r5, r6):
+        for fn in (r1, r2, r3, r4, r5, r6, r7):
             rule = 'C20.' + fn.__name__.upper()
             ctx.guarded(rule, 'evaluate' + sfx, lambda: fn(ctx, F, rule, sfx))
 
@@ -669,3 +673,173 @@ def blk_of_loop(b, ev, L):
         if bl['term'] is ev.term:
             return bl['id'] in L['blocks']
     return False
+
+
+def r7(ctx, F, rule, sfx):
+    b = F.body_by_suffix('space::Space::add_parts')
+    cid_b = F.body_by_suffix('part::Part::cid')
+    ip = I.Interp(F, no_inline=[x['path'] for x in F.bodies if x['path'].endswith(('Space::get_cid', 'Part::new', 'Part::cid'))])
+    sp = I.Sym(nf.sym_atom('space'), 'space::Space')
+    spref = ip.ref_to(sp, b['locals'][1]['ty'], mut=True)
+    ip.call_body(b, [spref, I.Sym(nf.sym_atom('positions'), '&[glam::DVec3]')])
+    ctx.evaluations += ip.evaluations
+    w = where(b)
+    cid_name = 'call:' + strip_generics(cid_b['path'])
+
+    def is_cid(v):
+        at = I.single_atom(as_rf(v)) if isinstance(v, (RF, I.Sym)) else None
+        return at if (at is not None and at.kind == 'app' and at.name == cid_name and len(at.args) == 1) else None
+    # --- the sort
+    sorts = [e for e in ip.events if e.body is b and e.callee and re.search(r'::(sort_by_key|sort_unstable_by_key|sort_by_cached_key)$', e.callee)]
+    if len(sorts) != 1 or sorts[0].in_loop:
+        ctx.bad(rule, 'sorted-by-cell-index' + sfx, '%d sort call(s) on the particle vector before the run-length pass' % len(sorts), 'parts.sort_by_key(|p| p.cid()) once, before the pass', w, key_extra='sort')
+        return
+    se = sorts[0]
+    probe = I.Sym(nf.sym_atom('part'), 'part::Part')
+    from ..tables import call_fn_value
+    try:
+        key = call_fn_value(ip, se.args[1], [ip.ref_to(probe)], 'usize')
+    except (AnalysisIncomplete, I.Diverge):
+        key = None
+    kat = is_cid(key) if key is not None else None
+    ok = kat is not None and I.vkey(kat.args[0]) == I.vkey(I.frozen(probe))
+    ctx.check(rule, 'sorted-by-cell-index' + sfx, ok, 'sort key: %s' % (repr(key)[:80] if key is not None else 'not evaluated'), 'the particle\'s cell index', where(b, se.line), key_extra='sortkey')
+    sorted_vec = I.read_lv(se.args[0].lv) if isinstance(se.args[0], I.Ref) else None       # the vector as the sort left it
+    # --- the run-length loop
+    Ls = [L for L in ip.loops if L['body'] is b]
+    if len(Ls) != 1:
+        raise AnalysisIncomplete('add_parts: %d loops (expected the run-length pass)' % len(Ls))
+    L = Ls[0]
+    nx = [e for e in next_events(ip, b) if e.in_loop]
+    if len(nx) != 1:
+        raise AnalysisIncomplete('add_parts: %d stream reads in the pass' % len(nx))
+    rec, li = loop_record_of(ip, nx[0])
+    cur = I.frozen(rec['init'][li])
+    names = []
+    for _ in range(4):
+        at = cur.atom if isinstance(cur, I.Sym) else None
+        if at is None or at.kind != 'app' or len(at.args) != 1:
+            break
+        short = str(at.name).rsplit('::', 1)[-1]
+        if short not in ('into_iter', 'iter', 'deref', 'as_slice'):
+            break
+        names.append(short)
+        cur = at.args[0]
+    src = cur
+    item = I.get_field(I.downcast(nx[0].result, 'Some'), 0)
+    ok_stream = 'iter' in names and sorted_vec is not None and I.vkey(I.frozen(src)) == I.vkey(I.frozen(sorted_vec))
+    ctx.check(rule, 'pass-over-the-sorted-particles' + sfx, ok_stream, '%s over the %s vector' % (' <- '.join(names), 'sorted' if ok_stream else 'other'), 'iter() over the vector the sort was applied to, all of it, in order', where(b, nx[0].line), key_extra='stream')
+    CID = None
+    for e in ip.events:
+        if e.body is b and e.in_loop and e.callee == cid_b['path'] and I.vkey(e.fargs[0]) == I.vkey(I.frozen(item)):
+            CID = as_rf(e.result)
+    if CID is None:
+        raise AnalysisIncomplete('the pass does not read the cell index of its particle')
+    # loop-carried scalars: classify by their recurrences under changed / unchanged
+    carried = [i for i, (a, p) in enumerate(zip(L['init'], L['phi'])) if a is not None and p is not None and a is not p and isinstance(p, RF)]
+
+    def arms(v, P):
+        """value of v when cid(item) == P and when it differs"""
+        out = []
+        for same in (True, False):
+            def val(leaf, same=same):
+                if leaf.op == 'cmp' and leaf.args[0] in ('==', '!=') and {I.vkey(leaf.args[1]), I.vkey(leaf.args[2])} == {I.vkey(CID), I.vkey(P)}:
+                    return same == (leaf.args[0] == '==')
+                raise AnalysisIncomplete('the pass tests %r' % (leaf,))
+            out.append(dtab.evaluate(v, val))
+        return out
+    roles = {}
+    backs = {}
+    for i in carried:
+        vs = [vals.get(i) for g, vals in L['back']]
+        if len(vs) != 1:
+            raise AnalysisIncomplete('run-length pass has %d back edges' % len(vs))
+        backs[i] = vs[0]
+    # prev: the one whose "changed" arm is the particle's cell index
+    for i in carried:
+        P = L['phi'][i]
+        try:
+            same, diff = arms(backs[i], P)
+        except AnalysisIncomplete:
+            continue
+        if as_rf(diff) == CID and as_rf(same) == P:
+            roles['prev'] = i
+    if 'prev' not in roles:
+        ctx.bad(rule, 'run-recurrence' + sfx, 'no loop-carried "current cell" (kept while the cell index repeats, replaced by the particle\'s cell index when it changes)', 'prev = cid(part) on a change', w, key_extra='prev')
+        return
+    P = L['phi'][roles['prev']]
+    for i in carried:
+        if i == roles['prev']:
+            continue
+        X = L['phi'][i]
+        same, diff = arms(backs[i], P)
+        same, diff = as_rf(same), as_rf(diff)
+        if same == X + RF.const(1) and diff == RF.const(1):
+            roles['count'] = i
+    if 'count' not in roles:
+        ctx.bad(rule, 'run-recurrence' + sfx, 'no run counter with count\' = count + 1 / 1', 'count + 1 while the cell repeats, 1 for the first particle of the next cell', w, key_extra='count')
+        return
+    C = L['phi'][roles['count']]
+    for i in carried:
+        if i in roles.values():
+            continue
+        X = L['phi'][i]
+        same, diff = arms(backs[i], P)
+        if as_rf(same) == X and as_rf(diff) == X + C:
+            roles['offset'] = i
+    ctx.check(rule, 'run-recurrence' + sfx, 'offset' in roles, 'roles found: %s' % sorted(roles), 'prev / count / offset with offset\' = offset + count exactly when the cell index changes', w, key_extra='offset')
+    if 'offset' not in roles:
+        return
+    O = L['phi'][roles['offset']]
+    # initial values
+    i0 = {k: L['init'][v] for k, v in roles.items()}
+    pat = is_cid(i0['prev'])
+    first = None
+    if pat is not None and sorted_vec is not None:
+        first = I.vkey(pat.args[0]) == I.vkey(I.frozen(I.get_index(sorted_vec, RF.const(0))))
+    ok = isinstance(i0['offset'], RF) and i0['offset'].is_zero() and isinstance(i0['count'], RF) and i0['count'].is_zero() and bool(first)
+    ctx.check(rule, 'run-start' + sfx, ok, 'offset0 = %r, count0 = %r, prev0 is the cell of the first sorted particle: %s' % (i0['offset'], i0['count'], first), '(0, 0, cid(parts[0]))', w, key_extra='init')
+    # the stores: closing a run writes (offset, count) into cells[prev] and nothing else
+    def cell_writes(new_cells, old_cells):
+        """-> list of (index, value) of the store chain from old to new, or None"""
+        out = []
+        cur = new_cells
+        for _ in range(8):
+            if I.vkey(I.frozen(cur)) == I.vkey(I.frozen(old_cells)):
+                return out
+            if isinstance(cur, I.Sym) and cur.atom.kind == 'app' and cur.atom.name == 'store':
+                base, j, val = cur.atom.args
+                out.append((j, val))
+                cur = base
+                continue
+            return None
+        return None
+    ext = [x for x in L['ext'] if x['cell'] is spref.lv.cell]
+    if len(ext) != 1 or len(ext[0]['back']) != 1:
+        raise AnalysisIncomplete('the pass does not update the grid through the &mut self argument')
+    x = ext[0]
+    old_cells = I.get_field(x['phi'], 'cells')
+    new_cells = I.get_field(x['back'][0][1], 'cells')
+    same_c, diff_c = arms(new_cells, P)
+    wr_same = cell_writes(same_c, old_cells)
+    wr_diff = cell_writes(diff_c, old_cells)
+
+    def closes_run(wr, cells0):
+        if not wr or any(I.vkey(j) != I.vkey(P) for j, _v in wr):
+            return False
+        v = wr[0][1]        # outermost store = final value of cells[prev]
+        try:
+            return as_rf(I.get_field(v, 'offset')) == O and as_rf(I.get_field(v, 'count')) == C
+        except (AnalysisIncomplete, KeyError, TypeError):
+            return False
+    ok = wr_same == [] and wr_diff is not None and closes_run(wr_diff, old_cells)
+    ctx.check(rule, 'run-closed-into-its-cell' + sfx, ok, 'writes while the cell repeats: %s; on a change: %s' % (len(wr_same) if wr_same is not None else '?', [repr(j)[-30:] for j, _ in (wr_diff or [])]),
+              'cells[prev].offset = offset, cells[prev].count = count exactly when the cell index changes', w, key_extra='store')
+    # after the loop: the last run
+    fin = I.read_lv(spref.lv)
+    wr_fin = cell_writes(I.get_field(fin, 'cells'), old_cells)
+    ok = wr_fin is not None and closes_run(wr_fin, old_cells)
+    ctx.check(rule, 'last-run-closed' + sfx, ok, 'stores after the loop: %s' % (len(wr_fin) if wr_fin is not None else 'not a store chain'), 'cells[prev] = (offset, count) once more after the loop', w, key_extra='last')
+    stored = I.get_field(fin, 'parts')
+    ok = sorted_vec is not None and I.vkey(I.frozen(stored)) == I.vkey(I.frozen(sorted_vec))
+    ctx.check(rule, 'sorted-particles-stored' + sfx, ok, 'self.parts is the sorted vector: %s' % ok, 'self.parts = the vector the offsets were computed for', w, key_extra='parts')
